@@ -55,7 +55,33 @@ expl("C14", "runtime monitoring: invocation ledger (atomic sequence numbers) of 
 CHECKS["C19"] = ("fault_enumeration", "runtime monitoring: fault enumeration - a failing user function placed in every clause position, every invocation index k = 1..N enumerated; RAISE_WHEN on every row index; type errors in every clause; follow-up query vs pristine copy",
      "Held for every fault point of every generated query explored: (no rows, error), an unaffected follow-up query on the same input, the same Query object usable again, and a failing query failing again when repeated; type errors include a reader error on a single row (ORDER BY path, later join key column) and natively typed integers where a boolean / string / array is required; follow-up queries show whole rows under an alias. Exhaustive in k per query, sampled in queries.", TRUST, "DESIGN.md §6 C19")
 
+# what the seventh round of seeded validation added to each workload (DESIGN.md §11.6)
+ROUND7 = {
+ "C01": "IN-subqueries with an ORDER BY ... LIMIT of their own; constants at the ends of the 64-bit integer ranges against natively typed columns.",
+ "C02": "The table also as inner arrays of a fan-out path (with and without WHERE); column names with letters beyond ASCII, plain and qualified.",
+ "C03": "GROUP BY spelling the grouping columns the other way than the select list; column names that are not plain words.",
+ "C05": "DISTINCT * / UNION of whole rows under a partial ORDER BY (a permutation of the unordered query); an aggregate next to plain columns under LIMIT.",
+ "C06": "DISTINCT over FUSE(obj).",
+ "C07": "Chains of CTEs that all carry names of document tables; EXISTS with the outer row named through its alias (also as the path to the nested table) or its table's own name.",
+ "C08": "IN lists whose items are computed from the row.",
+ "C09": "A function behind a NULL continuation; zero-padded numeric strings, fractions and numbers under the reshape pipe.",
+ "C10": "Background calls one of whose arguments fails or panics; background calls that read whole rows of a derived table.",
+ "C11": "Columns spelled with the table's own name as select items, function arguments and in arithmetic; NOT over an un-aliased table with whole rows in the result.",
+ "C12": "A later query showing whole rows of the same document object; stars over a scope with read and unread CTEs.",
+ "C13": "HASH / ENCODE over many rows on separate documents; PARALLEL joins whose ON holds a call followed by plain operands; background calls that read rows of a derived table.",
+ "C14": "ASYNC calls as the chosen branch of IF; a CTE read by both branches of a UNION; a name registered as plain first and immediate then.",
+ "C15": "Sorts of 33..72 rows; comparisons with a computed operand over doubles that differ in their last bits; three-table joins with BETWEEN / NOT over the joined side's column.",
+ "C16": "String arguments that are not valid UTF-8; block comments ending in several stars.",
+ "C17": "Double-quoted identifiers ending in a backslash.",
+ "C18": "IF with computed branches and a NULL condition; decimal texts of numbers from 1e6 on and below 1e-4 in CONCAT / CHANGETYPE.",
+ "C19": "A CTE first read at execution time as a fault position; type errors through alias-qualified paths on one row.",
+ "C20": "DISTINCT over source rows that repeat as a whole; registers written in the arms of a CASE.",
+}
+
 def main():
+    for pid, extra in ROUND7.items():
+        level, tech, text, note, ref = CHECKS[pid]
+        CHECKS[pid] = (level, tech, text.rstrip() + " Also: " + extra, note, ref)
     props = [json.loads(l) for l in open(os.path.join(ROOT, "properties.jsonl"))]
     hooks_commits = []
     try:
